@@ -3,7 +3,7 @@
 exploration order of Python's `re`:
 
     <(?P<tag>[A-Z0-9./_ ]+?)>
-        ((<!\[CDATA\[(?P<cdata>.+)\]\]>)|(?P<text>[^<]+))?
+        ((<!\[CDATA\[(?P<cdata>.+?)\]\]>)|(?P<text>[^<]+))?
     (</(?P<closetag>(?P=tag))>)?
     (?P<tail>[^<]+)?                                   (re.VERBOSE)
 
@@ -11,10 +11,10 @@ Facts reproduced (each exercised by the `lex` correspondence):
 * `re.VERBOSE` keeps the blank inside the character class, so a tag may contain blanks, `/`, `.`;
 * the tag quantifier is lazy, but `>` is not in the class, so the tag is the maximal run of class
   characters and must be non-empty and followed by `>`;
-* the CDATA alternative is tried first; `.+` is greedy and `.` does not match `\n`, so the scanner
-  takes the rest of the line and backtracks to the *last* `]]>` on it that leaves at least one
-  character of data; when no such `]]>` exists the alternative fails and `[^<]+` is tried (it then
-  fails too, because the next character is `<`);
+* the CDATA alternative is tried first; `.+?` is lazy and `.` does not match `\n`, so the data runs to the
+  *first* `]]>` on the line that leaves at least one character of data (everything after the group is
+  optional, so the lazy quantifier is never extended further); when no such `]]>` exists on the line the
+  alternative fails and `[^<]+` is tried (it then fails too, because the next character is `<`);
 * every group after the tag is optional and the first alternative explored that succeeds is kept, so
   there is never backtracking into `text` or `tail` (`[^<]+` is the maximal run);
 * `(?P=tag)` compares with the captured tag literally;
@@ -55,21 +55,22 @@ def dropPrefix : Str → Str → Option Str
   | _ :: _, [] => none
   | p :: ps, c :: cs => if p = c then dropPrefix ps cs else none
 
-/-- index of the last occurrence of `]]>` -/
-def findLastClose : Str → Option Nat
+/-- index of the first occurrence of `]]>` -/
+def findFirstClose : Str → Option Nat
   | [] => none
   | c :: cs =>
-    match findLastClose cs with
-    | some i => some (i + 1)
-    | none => if cdataClose.isPrefixOf (c :: cs) then some 0 else none
+    if cdataClose.isPrefixOf (c :: cs) then some 0
+    else match findFirstClose cs with
+      | some i => some (i + 1)
+      | none => none
 
-/-- `(?P<cdata>.+)\]\]>` at the input: greedy `.+` over the rest of the line, backtracking to the last
-    `]]>` that leaves at least one character. Returns the data and what follows `]]>`. -/
+/-- `(?P<cdata>.+?)\]\]>` at the input: lazy `.+?` within the line, i.e. up to the first `]]>` that leaves at
+    least one character. Returns the data and what follows `]]>`. -/
 def scanCdata (r : Str) : Option (Str × Str) :=
   match r.takeWhile notNl with
   | [] => none
   | _ :: l =>
-    match findLastClose l with
+    match findFirstClose l with
     | none => none
     | some i => some (r.take (i + 1), r.drop (i + 4))
 
